@@ -8,6 +8,9 @@ VENV_PY = '/venv/bin/python'
 def _verify_worker(args):
     qual, timeout_ms = args
     try:
+        if os.environ.get('PYVC_FAULT'):
+            import faulthandler
+            faulthandler.dump_traceback_later(int(os.environ['PYVC_FAULT']), repeat=True, file=open('/tmp/pyvc-fault-%d.txt' % os.getpid(), 'w'))
         from .spec import load_all
         from .symex import World
         from .verify import verify_function
@@ -83,6 +86,86 @@ def match_known(known, pid, name, witness=''):
     return None
 
 
+def _unit_main(fn, arg, conn, hb):
+    from . import z3v
+    z3v.HEARTBEAT[0] = hb
+    hb.value = time.time()
+    try:
+        conn.send(fn(arg))
+    except Exception:
+        conn.send({'unit': str(arg), 'kind': 'contract', 'obligations': [], 'error': traceback.format_exc()})
+    conn.close()
+
+
+def schedule(units, jobs, stall_s):
+    """one process per unit, at most `jobs` at a time.  A worker that has not beaten its heartbeat (one beat per solver call / obligation)
+    for `stall_s` seconds is stuck, not busy: it is killed and the unit is run once more; stuck twice = an error of the checker
+    (exit 3, undecided), never a verdict."""
+    ctx = mp.get_context('fork')
+    results = [None] * len(units)
+    pending = list(range(len(units)))
+    running = {}        # idx -> (proc, conn, hb, attempt)
+    attempts = [0] * len(units)
+    while pending or running:
+        while pending and len(running) < jobs:
+            i = pending.pop(0)
+            fn, arg = units[i]
+            parent, child = ctx.Pipe(duplex=False)
+            hb = ctx.Value('d', time.time())
+            p = ctx.Process(target=_unit_main, args=(fn, arg, child, hb))
+            p.daemon = False
+            p.start()
+            child.close()
+            attempts[i] += 1
+            running[i] = (p, parent, hb)
+        time.sleep(0.05)
+        for i in list(running):
+            p, conn, hb = running[i]
+            done = False
+            if conn.poll():
+                try:
+                    results[i] = conn.recv()
+                    done = True
+                except EOFError:
+                    results[i] = {'unit': str(units[i][1]), 'kind': 'contract', 'obligations': [], 'error': 'worker died without a result (exit code %s)' % p.exitcode}
+                    done = True
+            elif not p.is_alive():
+                results[i] = {'unit': str(units[i][1]), 'kind': 'contract', 'obligations': [], 'error': 'worker died without a result (exit code %s)' % p.exitcode}
+                done = True
+            elif units[i][0] is _verify_worker and time.time() - hb.value > stall_s:
+                kill_tree(p.pid)
+                p.join(5)
+                conn.close()
+                del running[i]
+                if attempts[i] < 2:
+                    sys.stderr.write('pyvc: worker for %s made no progress for %ds: killed, running it once more\n' % (units[i][1][0], stall_s))
+                    pending.append(i)
+                else:
+                    results[i] = {'unit': 'fn:' + units[i][1][0], 'kind': 'contract', 'obligations': [],
+                                  'error': 'worker stuck twice (no solver call finished for %ds)' % stall_s}
+                continue
+            if done:
+                p.join(10)
+                if p.is_alive():
+                    kill_tree(p.pid)
+                conn.close()
+                del running[i]
+    return results
+
+
+def kill_tree(pid):
+    try:
+        out = subprocess.run(['pgrep', '-P', str(pid)], capture_output=True, text=True).stdout.split()
+    except Exception:
+        out = []
+    for c in out:
+        kill_tree(int(c))
+    try:
+        os.kill(pid, 9)
+    except OSError:
+        pass
+
+
 def run_property(pid, tier='quick', seed=0, jobs=None):
     from .plan import PLAN
     from .spec import load_all, REG
@@ -104,13 +187,7 @@ def run_property(pid, tier='quick', seed=0, jobs=None):
     for b in plan.get('bounded', []):
         units.append((_bounded_worker, (b, pid, tier, seed)))
     jobs = jobs or min(16, max(1, len(units)))
-    results = []
-    if units:
-        ctx = mp.get_context('fork')
-        with ctx.Pool(jobs) as pool:
-            asyncs = [pool.apply_async(fn, (a,)) for fn, a in units]
-            for a in asyncs:
-                results.append(a.get())
+    results = schedule(units, jobs, stall_s=int(os.environ.get('PYVC_STALL') or (900 if tier == 'quick' else 3600)))
     return decide(pid, tier, seed, plan, results, quals, time.time() - t0)
 
 
